@@ -303,3 +303,59 @@ func (c *Ctx) fnInGeneratedFile(f *ssa.Function) bool {
 	}
 	return c.genFiles[c.P.Fset.Position(pos).Filename]
 }
+
+// expectedLiteralR: like expectedLiteral, resolving helper parameters (the literal may be built
+// in a helper from an issuer parameter, or passed to a helper).
+func (c *Ctx) expectedLiteralR(st stepRef, v ssa.Value) (issuer ssa.Value, timeNow bool, fields []string, ok bool) {
+	issuer, timeNow, fields, ok = expectedLiteral(c.upIn(st, v))
+	if ok && issuer != nil {
+		issuer = c.normIn(st, issuer)
+	}
+	return
+}
+
+// variadicAllocsUp: the locals whose addresses reach a variadic ...interface{} argument, through helper parameters.
+func (c *Ctx) variadicAllocsUp(st stepRef, v ssa.Value) []*ssa.Alloc {
+	elems, ok := sliceLitElems(v)
+	if !ok {
+		return nil
+	}
+	var out []*ssa.Alloc
+	for _, e := range elems {
+		if al, ok := c.normIn(st, e).(*ssa.Alloc); ok {
+			out = append(out, al)
+		}
+	}
+	return out
+}
+
+// before: the step (its site in fn) is executed before instruction in (when in lies in fn).
+func (c *Ctx) before(fn *ssa.Function, st stepRef, in ssa.Instruction) bool {
+	if in.Parent() != fn {
+		return true // inside a helper: ordered by the helper's own body (checked there)
+	}
+	site := st.siteIn()
+	if site.Parent() != fn {
+		return true
+	}
+	return dominatesInstr(site, in)
+}
+
+// requireStep: exit is reachable only over the success of the step (possibly through its helper).
+func (c *Ctx) requireStep(rule, key string, fn *ssa.Function, exit ssa.Instruction, st stepRef, resIdx int, what string) bool {
+	ok, why := c.stepGates(fn, exit, st, resIdx)
+	if !ok {
+		c.Bad(rule, key, exit.Pos(), "%s: accepting exit at %s is not gated by the result of %s at %s: %s", what, c.P.Pos(exit.Pos()), calleeName(st.call), c.P.Pos(st.call.Pos()), why)
+		return false
+	}
+	if site := st.siteIn(); site.Parent() == fn && !dominatesInstr(site, exit) {
+		c.Bad(rule, key, exit.Pos(), "%s: %s at %s does not dominate the accepting exit", what, calleeName(st.call), c.P.Pos(st.call.Pos()))
+		return false
+	}
+	via := ""
+	if len(st.via) > 0 {
+		via = " through helper " + st.call.Parent().Name()
+	}
+	c.OK(rule, key, st.call.Pos(), "%s: exit %s reachable only over the success edge of %s (%s)%s", what, c.P.Pos(exit.Pos()), calleeName(st.call), c.P.Pos(st.call.Pos()), via)
+	return true
+}
